@@ -191,12 +191,19 @@ func gRoute(c *Check) {
 				f := fi.FactsAt(sk.Instr)
 				elem := elemOfStoreAppend(fi, sk.Instr)
 				okAsync := f.HasBool(func(s *Sym) bool { return s.K == KField && s.Fld == asyncF }, false) != nil
+				if !okAsync && len(fn.Params) > 0 && fn.Signature.Recv() != nil {
+					okAsync = p.Prove(fi, sk.Instr, []Req{ReqBool(FieldOf(fi.Sym(fn.Params[0]), asyncF), false)}).OK
+				}
 				okTo := elem != nil && f.ImpliesCmp(CallSym(getTo, elem), "!=", FieldOf(base, idF))
 				c.Result(okAsync && okTo, rule+".d", "msgsAfterAppend element copied into Ready.Messages", fnName(fn), site, "!asyncStorageWrites && m.GetTo() != r.id (self-directed promises wait for Advance)", strings.Join(f.Describe(), "; "))
 			case sk.Kind == "field" && sk.Field == stepsF && sk.Via == "elemof":
 				f := fi.FactsAt(sk.Instr)
 				elem := elemOfStoreAppend(fi, sk.Instr)
 				okAsync := f.HasBool(func(s *Sym) bool { return s.K == KField && s.Fld == asyncF }, false) != nil
+				if !okAsync && len(fn.Params) > 0 && fn.Signature.Recv() != nil {
+					// the mode test may sit in the caller of a helper
+					okAsync = p.Prove(fi, sk.Instr, []Req{ReqBool(FieldOf(fi.Sym(fn.Params[0]), asyncF), false)}).OK
+				}
 				okTo := elem != nil && f.ImpliesCmp(CallSym(getTo, elem), "==", FieldOf(base, idF))
 				c.Result(okAsync && okTo, rule+".d", "msgsAfterAppend element queued for Advance", fnName(fn), site, "!asyncStorageWrites && m.GetTo() == r.id", strings.Join(f.Describe(), "; "))
 			case sk.Kind == "field" && sk.Field == respF && (sk.Via == "self" || sk.Via == "base"):
